@@ -45,11 +45,14 @@ pub fn main(args: &[String]) -> i32 {
 	let count: u64 = args[1].parse().unwrap();
 	let mut out = Out::new(&args[2]);
 	let dir = std::path::PathBuf::from(&args[2]).join("db");
-	let mut rng = Rng::new(seed ^ 0xC04);
 	let mut oracle = String::new();
 	let mut dist: BTreeMap<String, u64> = BTreeMap::new();
 	let mut nontrivial = std::collections::HashSet::new();
-	for _ in 0..count {
+	for case_no in 0..count {
+		let mut rng = crate::util::case_rng(seed ^ 0xC04, case_no);
+		if crate::util::skip_case(case_no) {
+			continue
+		}
 		// many keys so that the tree gets several levels (ORDER = 8)
 		let nkeys = rng.range(20, 160) as usize;
 		let mut keys: Vec<Vec<u8>> = Vec::new();
